@@ -96,10 +96,13 @@ def refused_growth_histories():
 
 class C12(HistProp):
     id = 'C12'
-    module = 'Cbor.Props.C12'
+    module = 'Cbor.Lemmas.SeqRefine'      # imports Cbor.Props.C12 (per-operation theorems) and adds the theorems about arbitrary operation sequences
     theorems = ['Props.C12.push_definite', 'Props.C12.push_indefinite', 'Props.C12.get_spec', 'Props.C12.get_out_of_range', 'Props.C12.replace_out_of_range',
                 'Props.C12.set_spec', 'Props.C12.map_add_definite', 'Props.C12.map_add_indefinite', 'Props.C12.add_chunk_spec',
-                'Props.C12.capFor_bounds', 'Props.C12.C12_logarithmic', 'Props.C12.C12_growth']
+                'Props.C12.capFor_bounds', 'Props.C12.C12_logarithmic', 'Props.C12.C12_growth',
+                'Props.C12.C12_array_sequences', 'Props.C12.C12_array_size_le_cap_every_step', 'Props.C12.C12_array_definite_pushes', 'Props.C12.C12_array_refused_untouched',
+                'Props.C12.C12_map_sequences', 'Props.C12.C12_map_definite_adds', 'Props.C12.C12_chunk_sequences', 'Props.C12.C12_array_growth_sequences',
+                'Props.C12.C12_map_growth_sequences', 'Props.C12.C12_chunk_growth_sequences']
     trusted_base = BASE_TRUST + HEAP_TRUST
     rule = ('operation sequences on every container kind (definite/indefinite array and map, chunked string): exhaustive sequences of length <= 3 (maps / chunked strings <= 6 in thorough) '
             'over push, set i, replace i, get i with i in 0..size+2, add-pair, add-chunk, definite capacities 0..4 (0..8 thorough); 3000 (6000 thorough) insertions into '
